@@ -166,7 +166,7 @@ Proof.
   induction n as [|n IH]; intros e f st r st' P E.
   - rewrite geval_O in E. inversion E; subst. (apply pre_post; [|exact I || reflexivity]); exact P.
   - rewrite geval_S in E.
-    destruct e as [l|es|es|e1|e1|e1|plus sep omitsep e1|neg e1|e1|rr|il nm e1|il e1].
+    destruct e as [l|es|es|e1|e1|e1|plus sep omitsep e1|neg e1|e1|lft e1|rr|il nm e1|il e1].
     + eapply leaf_tr; eassumption.
     + eapply seq_go_tr; eassumption.
     + eapply choice_go_tr; eassumption.
@@ -185,6 +185,8 @@ Proof.
     + destruct neg; destruct (gev n e1 (push f) st) as [[v f1|c|x] st1] eqn:E1; inversion E; subst;
         first [eapply (tr_fatal _ IH); eassumption | (apply pre_post; [|exact I || reflexivity]); first [eapply (tr_ok _ IH); eassumption | eapply (tr_fail _ IH); eassumption]].
     + eapply skipto_go_tr; eassumption.
+    + destruct (gev n e1 (push f) st) as [[v f1|c|x] st1] eqn:E1; inversion E; subst;
+        first [eapply (tr_fatal _ IH); eassumption | (apply pre_post; [|exact I || reflexivity]); first [eapply (tr_ok _ IH); eassumption | eapply (tr_fail _ IH); eassumption]].
     + eapply call_tr; [exact IH|exact P|exact E].
     + destruct il; destruct (gev n e1 f st) as [[v f1|c|x] st1] eqn:E1; inversion E; subst;
         first [eapply (tr_fatal _ IH); eassumption | (apply pre_post; [|exact I || reflexivity]); first [eapply (tr_ok _ IH); eassumption | eapply (tr_fail _ IH); eassumption]].
